@@ -715,7 +715,7 @@ func (fr *Frame) execUnOp(x *ssa.UnOp) {
 		et := x.X.Type().Underlying().(*types.Pointer).Elem()
 		r := c.load(fr.st, v, et)
 		// name and constrain scalars
-		if r.Sort == SInt || r.Sort == SSlice || r.Sort == SPtr {
+		if r.Sort == SInt || r.Sort == SSlice || r.Sort == SPtr || r.Sort == SIface {
 			n := c.fresh("ld_"+x.Name(), r.Sort)
 			c.assumeDef(eq(n, r))
 			c.assumeTypeInv(n, et, fr.st)
@@ -1125,8 +1125,9 @@ func (fr *Frame) execTypeAssert(x *ssa.TypeAssert) {
 }
 
 // implements builds the predicate "dynamic type of v implements iface".
-func (fr *Frame) implements(v Term, iface types.Type) Term {
-	c := fr.c
+func (fr *Frame) implements(v Term, iface types.Type) Term { return fr.c.implements(v, iface) }
+
+func (c *Ctx) implements(v Term, iface types.Type) Term {
 	name := "impl_" + sanitizeIdent(shortType(iface))
 	c.declareFun(name, []string{SInt}, SBool)
 	if !c.assumed[name] {
@@ -1341,5 +1342,6 @@ func (fr *Frame) execSelect(x *ssa.Select) {
 		res = append(res, r)
 	}
 	fr.tuples[x] = res
+	c.setGhost(fr.st, "select", idx)
 	fr.selectHook(x, idx)
 }
